@@ -28,6 +28,8 @@ SpDrift(e) ==
   ELSE "ok"
 EnReason(e) ==
   IF e.class = "unknown" THEN (IF e.res = "err" /\ e.named = 1 THEN "ok" ELSE "unknown-entity-not-reported")
+  ELSE IF e.class = "insignificant-text" THEN (IF e.res # "ok" THEN "text-in-a-comment-or-instruction-rejected"
+                                               ELSE IF e.same = 0 THEN "text-in-a-comment-or-instruction-changed-the-result" ELSE "ok")
   ELSE IF e.res # "ok" THEN "entity-of-the-table-rejected"
   ELSE IF e.same = 0 THEN "entity-differs-from-its-numeric-spelling"
   ELSE "ok"
